@@ -1279,7 +1279,7 @@ def regp_tie_modules():
 
 SLIP_SRC = "src/rfc1055.c"
 SLIP_TIE = {
-    "rfc1055_context_init": "Ufw.Tie.SlipFns.ContextInit", "rfc1055_encode": "Ufw.Tie.SlipFns.Encode",
+    "rfc1055_context_init": "Ufw.Tie.SlipFns.ContextInit", "rfc1055_encode": "Ufw.Tie.SlipFns.Encode", "rfc1055_decode": "Ufw.Tie.SlipFns.Decode",
 }
 SLIP_WANT = ["rfc1055_context_init", "rfc1055_open", "rfc1055_close", "rfc1055_encode_octet", "rfc1055_decode_octet", "rfc1055_encode",
              "transition", "rfc1055_decode"]
